@@ -183,3 +183,13 @@ claim("C04", "def-use / dominance check of EnergyAdapter's constant handling",
       "minus constants), stores and evaluates the specialised operator and keeps it in at(); the sampled KL optimises the reduced "
       "expansion point. Equality of value/Jacobian/metric with the original operator is numerical and not decided.", TRUST,
       "DESIGN.md section 9.6")
+
+claim("C30", "term comparison: function bodies of the closed-form transforms read into symbolic terms (Phi/PhiInv abstract) and compared with a frozen table of textbook quantile and moment formulas, sympy as normaliser; structural check of the tabulated quantile compositions",
+      "Decides only the closed-form clause of the property: the nifty.re normal / log-normal / uniform / Laplace transforms are "
+      "the documented quantile maps at Phi(xi) and increasing, each provided inverse composed with its transform is the identity, "
+      "lognormal_moments (both APIs) reproduces mean and std, the classic UniformOperator/LaplaceOperator values, Jacobians and "
+      "inverses agree with the quantile formulas, the interpolated operators tabulate <dist>.ppf(norm cdf(x), shape) with the "
+      "documented scaling, and the (mode, mean, var) <-> (alpha, q, theta) conversions are mutually consistent. The accuracy of "
+      "the interpolation tables and of scipy/jax special functions is numerical and not decided.",
+      TRUST + " sympy 1.14 (offline wheelhouse) as algebraic normaliser; the quantile/moment table is the checker's own (textbook formulas).",
+      "DESIGN.md section 9.7")
